@@ -15,3 +15,4 @@ import NakenVerif.Props.C03
 import NakenVerif.Props.C13
 import NakenVerif.Props.C18
 import NakenVerif.Props.C09
+import NakenVerif.Props.C20
